@@ -19,9 +19,13 @@ pub fn collect_free_variables(
         return Vec::new();
     };
 
+    let mut rebound = ReboundNames::default();
+    rebound.visit_expression(body);
+
     let mut collector = FreeVariableCollector {
         function_parameters,
         defined_variables,
+        rebound,
         captures: Vec::new(),
     };
     collector.visit_expression(body);
@@ -31,8 +35,115 @@ pub fn collect_free_variables(
 struct FreeVariableCollector<'a> {
     function_parameters: &'a HashSet<String>,
     defined_variables: &'a dyn Fn(&str, &[ast::AccessPath]) -> bool,
+    /// Names the body binds itself. A path such as `a.x` may then belong to the body's own `a`,
+    /// so it must not be pre-evaluated on the outer `a` when the closure is created (the outer
+    /// value need not even have that field): the whole outer `a` is captured instead and the
+    /// path is read where it is used.
+    rebound: ReboundNames,
     /// Captures in order of first occurrence (deterministic ordering)
     captures: Vec<Capture>,
+}
+
+/// The names bound by patterns anywhere in a function body (nested functions included, which
+/// only makes the answer more cautious). A star pattern binds names only known from the type of
+/// the value it matches, so it counts as binding every name.
+#[derive(Default)]
+struct ReboundNames {
+    names: HashSet<String>,
+    any: bool,
+}
+
+impl ReboundNames {
+    fn contains(&self, name: &str) -> bool {
+        self.any || self.names.contains(name)
+    }
+
+    fn visit_expression(&mut self, expression: &ast::Expression) {
+        for branch in &expression.branches {
+            self.visit_sequence(&branch.condition);
+            if let Some(consequence) = &branch.consequence {
+                self.visit_sequence(consequence);
+            }
+        }
+    }
+
+    fn visit_sequence(&mut self, sequence: &ast::Sequence) {
+        for chain in &sequence.chains {
+            self.visit_chain(chain);
+        }
+    }
+
+    fn visit_chain(&mut self, chain: &ast::Chain) {
+        if let Some(pattern) = &chain.match_pattern {
+            self.visit_match(pattern);
+        }
+        for term in &chain.terms {
+            self.visit_term(term);
+        }
+    }
+
+    fn visit_term(&mut self, term: &ast::Term) {
+        match term {
+            ast::Term::Tuple(tuple) => {
+                for field in &tuple.fields {
+                    if let ast::FieldValue::Chain(chain) = &field.value {
+                        self.visit_chain(chain);
+                    }
+                }
+            }
+            ast::Term::String(_, segments) => {
+                for segment in segments {
+                    if let ast::StrSegment::Hole(expression) = segment {
+                        self.visit_expression(expression);
+                    }
+                }
+            }
+            ast::Term::Match(pattern) => self.visit_match(pattern),
+            ast::Term::Block(block) => self.visit_expression(block),
+            ast::Term::Function(func) => {
+                if let Some(body) = &func.body {
+                    self.visit_expression(body);
+                }
+            }
+            ast::Term::Spawn(function, _) => self.visit_term(function),
+            ast::Term::Select(Some(sources), _) => {
+                for source in sources {
+                    self.visit_chain(source);
+                }
+            }
+            _ => {}
+        }
+    }
+
+    fn visit_match(&mut self, pattern: &ast::Match) {
+        match pattern {
+            ast::Match::Identifier(name, _) | ast::Match::As(_, name, _) => {
+                self.names.insert(name.clone());
+            }
+            ast::Match::Tuple(tuple) => {
+                for field in &tuple.fields {
+                    self.visit_match(&field.pattern);
+                }
+            }
+            ast::Match::Partial(partial) => {
+                for field in &partial.fields {
+                    match &field.pattern {
+                        Some(nested) => self.visit_match(nested),
+                        None => {
+                            self.names.insert(field.name.clone());
+                        }
+                    }
+                }
+            }
+            ast::Match::Or(alternatives) => {
+                for alternative in alternatives {
+                    self.visit_match(alternative);
+                }
+            }
+            ast::Match::Star(_) => self.any = true,
+            _ => {}
+        }
+    }
 }
 
 impl<'a> FreeVariableCollector<'a> {
@@ -129,6 +240,11 @@ impl<'a> FreeVariableCollector<'a> {
     }
 
     fn visit_identifier(&mut self, identifier: &str, accessors: Vec<ast::AccessPath>) {
+        let accessors = if self.rebound.contains(identifier) {
+            Vec::new()
+        } else {
+            accessors
+        };
         if !self.function_parameters.contains(identifier)
             && (self.defined_variables)(identifier, &accessors)
         {
